@@ -1,0 +1,22 @@
+//go:build verif
+
+// Verification hooks (build tag "verif") for the quota decision. Add-only.
+
+package protocol
+
+import (
+	"github.com/enfein/mieru/v3/pkg/appctl/appctlpb"
+	"github.com/enfein/mieru/v3/pkg/protocol/serveruser"
+)
+
+// VerifCheckQuota runs checkQuota(userName) on a session whose retained policy snapshot is built
+// from policyUser (nil: the session has no policy).
+func VerifCheckQuota(policyUser *appctlpb.User, userName string) (bool, error) {
+	s := &Session{}
+	if policyUser != nil {
+		if p, ok := serveruser.BuildPolicies(map[string]*appctlpb.User{policyUser.GetName(): policyUser})[policyUser.GetName()]; ok {
+			s.userPolicy.Store(&p)
+		}
+	}
+	return s.checkQuota(userName)
+}
